@@ -112,7 +112,7 @@ pub fn build(
             "complete": planned_runs >= crate::scenario::enum_runs(tier),
         });
         coverage["truncation_sweep"] = json!({
-            "definition": "per base file: every prefix length 0..=len; base files are dealt to the 22 readers in turn (18 extensions, PSF, TDF, palette, clipboard)",
+            "definition": "per base file: every prefix length 0..=len; base files are dealt to the 23 reader kinds in turn (18 extensions, PSF any header, PSF1, TDF, palette, clipboard)",
             "base_files": crate::scenario::trunc_bases(tier),
             "base_files_swept_completely": measures.get("trunc_base").copied().unwrap_or(0),
             "complete": planned_runs >= crate::scenario::trunc_runs(tier),
